@@ -181,6 +181,7 @@ type world struct {
 	hang       bool
 	quiet      bool
 	nextLid    int
+	unsure     bool                  // a DoneTask without a task of its own was accepted (misuse stream)
 	iocs       map[int]app.IOContext // scopes owned by a gio.IOContext (sop.Via == 1 children and their parents)
 }
 
@@ -303,7 +304,7 @@ func (w *world) settle() {
 		for _, c := range w.closers {
 			if atomic.LoadInt32(&c.status) == 1 {
 				running++
-				if !c.first || w.outstanding(c.scope) <= 0 {
+				if !c.first || (!w.unsure && w.outstanding(c.scope) <= 0) {
 					ok = false
 				}
 			}
@@ -442,8 +443,14 @@ func (w *world) apply(p sop) (out []string) {
 		}
 		return []string{"SAdd " + coqBool(err == nil)}
 	case "done":
-		w.scopes[p.S].DoneTask()
+		stolen := w.tasks[p.S] <= 0 // misuse: none of the tasks accepted here is outstanding
+		w.scopes[p.S].DoneTask()    // panics when the counter is zero
 		w.tasks[p.S]--
+		if stolen {
+			// it did not panic: it used up a child's registration; from here on the bookkeeping does not
+			// know the counter (the model does), so nothing is derived from it any more
+			w.unsure = true
+		}
 	case "apperr":
 		w.lastFiring = p.S
 		w.scopes[p.S].AppendError(toErrs(p.Es)...)
@@ -601,7 +608,7 @@ func runSeq(next func(w *world, step int) *sop, maxSteps int) seqResult {
 			st := atomic.LoadInt32(&c.status)
 			if c.first && !c.reported && (st == 2 || st == 3) {
 				c.reported = true
-				if n := w.outstanding(c.scope); n > 0 {
+				if n := w.outstanding(c.scope); n > 0 && !w.unsure {
 					res.Violations = append(res.Violations, fmt.Sprintf("Close of scope %d returned with %d outstanding tasks/children (step %d)", c.scope, n, step))
 				}
 			}
@@ -876,7 +883,7 @@ func genNext(rng *RNG, g genCfg, o *Out) func(w *world, step int) *sop {
 			case k < 94:
 				return &sop{K: "err", S: s}
 			default:
-				if w.outstanding(s) == 0 && w.tasks[s] == 0 {
+				if w.outstanding(s) == 0 && w.tasks[s] == 0 && !w.unsure {
 					return &sop{K: "wait", S: s}
 				}
 			}
